@@ -205,9 +205,11 @@ def _get_active_backend(
                 "as the latter does not provide shared memory semantics."
             )
         thread_config = backend_config.copy()
-        if explicit_backend:
+        n_jobs = thread_config["n_jobs"]
+        if explicit_backend or n_jobs is None or isinstance(n_jobs, _Sentinel):
             # The n_jobs setting of the context was meant for the backend
-            # that is overridden here: force to n_jobs=1 by default.
+            # that is overridden here (or there is none): force to n_jobs=1
+            # by default.
             thread_config["n_jobs"] = 1
         return sharedmem_backend, thread_config
 
